@@ -646,4 +646,623 @@ theorem ack_emitted (e : End) (he : EInv e) (now : Nat)
     rw [h0] at this; simp at this
   · simp [Session.baseHdr, hpa, Hdr.encode, Hdr.flagsByte, decodeHdr, bit, takeIf, Except.toOption, Hdr.getAck]
 
+
+/-! ## What goes on the wire is a byte string; the link of two ends -/
+
+theorem bytes_append {a b : List Nat} (ha : Bytes a) (hb : Bytes b) : Bytes (a ++ b) := by
+  intro x hx
+  rcases List.mem_append.mp hx with h | h
+  · exact ha x h
+  · exact hb x h
+
+theorem bytes_take {a : List Nat} (n : Nat) (ha : Bytes a) : Bytes (a.take n) :=
+  fun x hx => ha x (List.mem_of_mem_take hx)
+
+theorem bytes_drop {a : List Nat} (n : Nat) (ha : Bytes a) : Bytes (a.drop n) :=
+  fun x hx => ha x (List.mem_of_mem_drop hx)
+
+theorem flagsByte_lt (h : Hdr) : h.flagsByte < 256 := by
+  unfold Hdr.flagsByte
+  repeat' split
+  all_goals omega
+
+theorem encode_bytes (h : Hdr) (ho : h.opcode < 256) (ha : h.ackNum < 256) (hs : h.seqNum < 256) :
+    Bytes h.encode := by
+  unfold Hdr.encode
+  have := flagsByte_lt h
+  intro x hx
+  simp only [List.mem_append, List.mem_cons, List.not_mem_nil, or_false] at hx
+  rcases hx with (((hx | hx) | hx) | hx) | hx
+  · omega
+  · split at hx
+    · simp at hx; omega
+    · cases hx
+  · split at hx
+    · simp at hx; omega
+    · cases hx
+  · split at hx
+    · simp at hx; omega
+    · cases hx
+  · split at hx
+    · simp at hx
+      rcases hx with hx | hx <;> omega
+    · cases hx
+
+
+theorem baseHdr_fields (s : Session) (hs : SInv s) :
+    s.baseHdr.opcode = 0 ∧ s.baseHdr.ackNum < 256 ∧ s.baseHdr.seqNum < 256 := by
+  refine ⟨rfl, ?_, ?_⟩
+  · show s.recv.pendingAck.getD 0 < 256
+    unfold RecvWindow.pendingAck
+    have := hs.ackSeqLt
+    split <;> simp <;> omega
+  · show s.send.nextSeq < 256
+    unfold SendWindow.nextSeq; omega
+
+theorem buildSegment_bytes {s : Session} (hs : SInv s) {data : List Nat} (hd : Bytes data) {off : Nat}
+    {h : Hdr} {p : List Nat} (hok : s.buildSegment data off = .ok (h, p)) :
+    Bytes (h.encode ++ p) := by
+  obtain ⟨ho, ha, hq⟩ := baseHdr_fields s hs
+  unfold Session.buildSegment at hok
+  simp only at hok
+  split at hok
+  · split at hok
+    · cases hok
+    · split at hok
+      · cases hok
+      · have hh := (Prod.mk.inj (Except.ok.inj hok))
+        rw [← hh.1, ← hh.2]
+        apply bytes_append
+        · apply encode_bytes
+          all_goals (repeat' split) <;> simp only [] <;> omega
+        · exact bytes_take _ (bytes_drop _ hd)
+  · have hh := (Prod.mk.inj (Except.ok.inj hok))
+    rw [← hh.1, ← hh.2]
+    simp only [List.append_nil]
+    exact encode_bytes _ (by omega) ha hq
+
+theorem prepTxData_bytes {s : Session} (hs : SInv s) {data : List Nat} (hd : Bytes data) {off now : Nat}
+    {s' : Session} {seg : List Nat} {off' : Nat} (hok : s.prepTxData data off now = .ok (s', seg, off')) :
+    Bytes seg ∧ s'.version = s.version := by
+  unfold Session.prepTxData at hok
+  split at hok
+  · have hh := Prod.mk.inj (Except.ok.inj hok)
+    rw [← (Prod.mk.inj hh.2).1, ← hh.1]
+    exact ⟨fun x hx => absurd hx (List.not_mem_nil), rfl⟩
+  · cases hb : s.buildSegment data off with
+    | error e => rw [hb] at hok; cases hok
+    | ok hp =>
+      rw [hb] at hok
+      obtain ⟨h, p⟩ := hp
+      simp only at hok
+      split at hok
+      · cases hok
+      · split at hok
+        · cases hok
+        · split at hok
+          · cases hok
+          · have hh := Prod.mk.inj (Except.ok.inj hok)
+            rw [← (Prod.mk.inj hh.2).1, ← hh.1]
+            exact ⟨buildSegment_bytes hs hd hb, rfl⟩
+
+
+theorem bytes_of_lt {l : List Nat} (h : ∀ x ∈ l, x < 256) : Bytes l := h
+
+theorem prepTxHandshake_bytes {s : Session} (hs : SInv s) (hv : s.version < 256) {g : Option Nat} {now : Nat}
+    {s' : Session} {hb : List Nat} (hok : s.prepTxHandshake g now = .ok (s', hb)) :
+    Bytes hb ∧ s'.version = s.version := by
+  unfold Session.prepTxHandshake at hok
+  split at hok
+  · split at hok
+    · simp only at hok
+      split at hok
+      · cases hok
+      · split at hok
+        · cases hok
+        · rename_i m _ ws hws
+          have hh := Prod.mk.inj (Except.ok.inj hok)
+          rw [← hh.1, ← hh.2]
+          refine ⟨?_, rfl⟩
+          have hws' : ws ≤ 255 := by
+            unfold initialWindowSize at hws
+            split at hws
+            · cases hws
+            · have := Except.ok.inj hws; omega
+          intro x hx
+          simp [handshakeHdr, Hdr.encode, Hdr.flagsByte] at hx
+          rcases hx with hx | hx | hx | hx | hx | hx | hx | hx | hx <;> omega
+    · split at hok
+      · cases hok
+      · have hh := Prod.mk.inj (Except.ok.inj hok)
+        rw [← hh.1, ← hh.2]
+        refine ⟨?_, rfl⟩
+        have := hs.wsLe
+        intro x hx
+        simp [handshakeHdr, Hdr.encode, Hdr.flagsByte] at hx
+        rcases hx with hx | hx | hx | hx | hx | hx <;> omega
+  · have hh := Prod.mk.inj (Except.ok.inj hok)
+    rw [← hh.1, ← hh.2]
+    exact ⟨fun x hx => absurd hx (List.not_mem_nil), rfl⟩
+
+theorem reqVersion_lt (v : Nat) : reqVersion v < 256 := by
+  unfold reqVersion
+  simp only
+  split
+  · omega
+  · rename_i x r heq
+    have hall : ∀ y ∈ (List.filter (fun x => decide (x > 0)) (List.map (fun i => v / 16 ^ i % 256) (List.range 7))), y < 256 := by
+      intro y hy
+      have := (List.mem_filter.mp hy).1
+      obtain ⟨i, _, rfl⟩ := List.mem_map.mp this
+      omega
+    rw [heq] at hall
+    have hx : x < 256 := hall x (by simp)
+    have : ∀ (l : List Nat) (a : Nat), a < 256 → l.foldl min a < 256 := by
+      intro l
+      induction l with
+      | nil => intro a ha; exact ha
+      | cons b l ih => intro a ha; exact ih _ (by omega)
+    exact this r x hx
+
+theorem processRx_version {s : Session} (hv : s.version < 256) {g : Option Nat} {data : List Nat}
+    (hd : Bytes data) {now : Nat} {s' : Session} (hok : s.processRx g data now = .ok s') :
+    s'.version < 256 := by
+  unfold Session.processRx at hok
+  have c := decodeHdr_clean data hd
+  cases hdec : decodeHdr data with
+  | error e => rw [hdec] at hok; cases hok
+  | ok hp =>
+    rw [hdec] at hok c
+    obtain ⟨h, p⟩ := hp
+    simp only [Clean] at c
+    simp only at hok
+    unfold Session.processRxSeg at hok
+    split at hok
+    · split at hok
+      · unfold Session.processRxHandshakeResp at hok
+        split at hok
+        · cases hok
+        · cases hr : decodeResp p with
+          | error e => rw [hr] at hok; cases hok
+          | ok resp =>
+            rw [hr] at hok
+            simp only at hok
+            split at hok
+            · cases hok
+            · have := Except.ok.inj hok
+              rw [← this]
+              show resp.version < 256
+              unfold decodeResp at hr
+              split at hr
+              · have := Except.ok.inj hr
+                rw [← this]
+                exact c.2 _ (by simp)
+              · cases hr
+      · unfold Session.processRxHandshakeReq at hok
+        split at hok
+        · cases hok
+        · split at hok
+          · cases hok
+          · simp only at hok
+            split at hok
+            · cases hok
+            · split at hok
+              · cases hok
+              · split at hok
+                · cases hok
+                · have := Except.ok.inj hok
+                  rw [← this]
+                  exact reqVersion_lt _
+    · unfold Session.processRxData at hok
+      split at hok
+      · cases hok
+      · split at hok
+        · cases hok
+        · split at hok
+          · cases hok
+          · have := Except.ok.inj hok
+            rw [← this]; exact hv
+
+
+/-- side conditions that make everything an end puts on the wire a byte string -/
+structure WInv (e : End) : Prop where
+  ver : e.s.version < 256
+  sdu : Bytes e.sdu
+
+theorem bytes_nil : Bytes [] := fun _ hx => absurd hx (List.not_mem_nil)
+
+theorem dataStep_bytes {e : End} (he : EInv e) (hw : WInv e) {now : Nat} {e' : End} {seg : List Nat}
+    (hok : e.dataStep now = .ok (e', seg)) : Bytes seg ∧ WInv e' := by
+  unfold End.dataStep at hok
+  split at hok
+  · cases h2 : e.s.prepTxData e.sdu e.off now with
+    | error f => rw [h2] at hok; cases hok
+    | ok r =>
+      rw [h2] at hok
+      obtain ⟨s2, sg, off2⟩ := r
+      obtain ⟨hb, hv⟩ := prepTxData_bytes he.s hw.sdu h2
+      simp only at hok
+      split at hok
+      · split at hok
+        · have hh := Prod.mk.inj (Except.ok.inj hok)
+          rw [← hh.1, ← hh.2]
+          exact ⟨hb, ⟨by simp only []; rw [hv]; exact hw.ver, bytes_nil⟩⟩
+        · have hh := Prod.mk.inj (Except.ok.inj hok)
+          rw [← hh.1, ← hh.2]
+          exact ⟨hb, ⟨by simp only []; rw [hv]; exact hw.ver, hw.sdu⟩⟩
+      · have hh := Prod.mk.inj (Except.ok.inj hok)
+        rw [← hh.1, ← hh.2]
+        exact ⟨bytes_nil, ⟨by simp only []; rw [hv]; exact hw.ver, hw.sdu⟩⟩
+  · have hh := Prod.mk.inj (Except.ok.inj hok)
+    rw [← hh.1, ← hh.2]
+    exact ⟨bytes_nil, hw⟩
+
+theorem ackStep_bytes {e : End} (he : EInv e) (hw : WInv e) {now : Nat} {e' : End} {seg : List Nat}
+    (hok : e.ackStep now = .ok (e', seg)) : Bytes seg ∧ WInv e' := by
+  unfold End.ackStep at hok
+  split at hok
+  · cases h2 : e.s.prepTxData [] 0 now with
+    | error f => rw [h2] at hok; cases hok
+    | ok r =>
+      rw [h2] at hok
+      obtain ⟨s2, sg, off2⟩ := r
+      obtain ⟨hb, hv⟩ := prepTxData_bytes he.s bytes_nil h2
+      have hh := Prod.mk.inj (Except.ok.inj hok)
+      rw [← hh.1, ← hh.2]
+      exact ⟨hb, ⟨by simp only []; rw [hv]; exact hw.ver, hw.sdu⟩⟩
+  · have hh := Prod.mk.inj (Except.ok.inj hok)
+    rw [← hh.1, ← hh.2]
+    exact ⟨bytes_nil, hw⟩
+
+theorem endOutgoing_bytes {e : End} (he : EInv e) (hw : WInv e) {now : Nat} {e' : End} {seg : List Nat}
+    (hok : e.processOutgoing now = .ok (e', seg)) : Bytes seg ∧ WInv e' := by
+  unfold End.processOutgoing at hok
+  have c1 := prepTxHandshake_clean e.s he.s e.gattMtu now
+  cases h1 : e.s.prepTxHandshake e.gattMtu now with
+  | error f => rw [h1] at hok; cases hok
+  | ok r1 =>
+    rw [h1] at hok c1
+    obtain ⟨s1, hb⟩ := r1
+    simp only [Clean] at c1
+    obtain ⟨hs1, hnp1, _, _, _⟩ := c1
+    obtain ⟨hbb, hv1⟩ := prepTxHandshake_bytes he.s hw.ver h1
+    simp only at hok
+    split at hok
+    · have hh := Prod.mk.inj (Except.ok.inj hok)
+      rw [← hh.1, ← hh.2]
+      exact ⟨hbb, ⟨by simp only []; rw [hv1]; exact hw.ver, hw.sdu⟩⟩
+    · have he1 : EInv { e with s := s1 } := ⟨hs1, he.off, he.len⟩
+      have hw1 : WInv { e with s := s1 } := ⟨by simp only []; rw [hv1]; exact hw.ver, hw.sdu⟩
+      have c2 := dataStep_clean { e with s := s1 } he1 hnp1 now
+      cases h2 : End.dataStep { e with s := s1 } now with
+      | error f => rw [h2] at hok; cases hok
+      | ok r2 =>
+        rw [h2] at hok c2
+        obtain ⟨e2, sg⟩ := r2
+        obtain ⟨hb2, hw2⟩ := dataStep_bytes he1 hw1 h2
+        simp only [Clean, TxOk] at c2
+        simp only at hok
+        split at hok
+        · have hh := Prod.mk.inj (Except.ok.inj hok)
+          rw [← hh.1, ← hh.2]
+          exact ⟨hb2, hw2⟩
+        · exact ackStep_bytes c2.1 hw2 hok
+
+theorem endIncoming_winv {e : End} (hw : WInv e) {data : List Nat} (hd : Bytes data) {now : Nat} {e' : End}
+    (hok : e.processIncoming data now = .ok e') : WInv e' := by
+  unfold End.processIncoming at hok
+  cases h : e.s.processRx e.gattMtu data now with
+  | error f => rw [h] at hok; cases hok
+  | ok s' =>
+    rw [h] at hok
+    have := Except.ok.inj hok
+    rw [← this]
+    exact ⟨processRx_version hw.ver hd h, hw.sdu⟩
+
+theorem endSend_winv {e : End} (hw : WInv e) {m : List Nat} (hm : Bytes m) {e' : End} {ok : Bool}
+    (hok : e.send m = .ok (e', ok)) : WInv e' := by
+  unfold End.send at hok
+  split at hok
+  · cases hok
+  · split at hok
+    · have hh := Prod.mk.inj (Except.ok.inj hok)
+      rw [← hh.1]
+      exact ⟨hw.ver, hm⟩
+    · have hh := Prod.mk.inj (Except.ok.inj hok)
+      rw [← hh.1]; exact hw
+
+theorem endRecv_winv {e : End} (hw : WInv e) {cap : Nat} {e' : End} {m : Option (List Nat)}
+    (hok : e.recv cap = .ok (e', m)) : WInv e' := by
+  unfold End.recv at hok
+  split at hok
+  · unfold Session.fetchMessage at hok
+    cases h : e.s.recv.fetchMessage cap with
+    | error f => rw [h] at hok; cases hok
+    | ok r =>
+      rw [h] at hok
+      have hh := Prod.mk.inj (Except.ok.inj hok)
+      rw [← hh.1]
+      exact ⟨hw.ver, hw.sdu⟩
+  · have hh := Prod.mk.inj (Except.ok.inj hok)
+    rw [← hh.1]; exact hw
+
+
+/-! ## The link observed by two monitors -/
+
+structure LMon where
+  a : Mon
+  b : Mon
+  qab : List (List Nat) := []
+  qba : List (List Nat) := []
+  now : Nat := 0
+
+def LMon.get (l : LMon) : Side → Mon
+  | .a => l.a
+  | .b => l.b
+
+def LMon.set (l : LMon) (x : Side) (m : Mon) : LMon :=
+  match x with
+  | .a => { l with a := m }
+  | .b => { l with b := m }
+
+def LMon.inq (l : LMon) : Side → List (List Nat)
+  | .a => l.qba
+  | .b => l.qab
+
+def LMon.setInq (l : LMon) (x : Side) (q : List (List Nat)) : LMon :=
+  match x with
+  | .a => { l with qba := q }
+  | .b => { l with qab := q }
+
+/-- forget the ghosts -/
+def LMon.erase (l : LMon) : Link :=
+  { a := l.a.e, b := l.b.e, qab := l.qab, qba := l.qba, now := l.now }
+
+/-- `Link.step` on the monitored link -/
+def LMon.step (l : LMon) : Op → Except Fail (LMon × Out)
+  | .send x m =>
+    match (l.get x).step (.send m) with
+    | .error f => .error f
+    | .ok (m', o) => .ok (l.set x m', o)
+  | .poll x =>
+    match (l.get x).step (.poll l.now) with
+    | .error f => .error f
+    | .ok (m', .tx seg) => .ok ((l.set x m').setInq x.other ((l.set x m').inq x.other ++ [seg]), .tx seg)
+    | .ok (m', o) => .ok (l.set x m', o)
+  | .deliver x =>
+    match l.inq x with
+    | [] => .ok (l, .none)
+    | seg :: rest =>
+      match (l.get x).step (.rx seg l.now) with
+      | .error f => .error f
+      | .ok (m', o) => .ok ((l.set x m').setInq x rest, o)
+  | .tick n => .ok ({ l with now := l.now + n }, .none)
+  | .fetch x cap =>
+    match (l.get x).step (.fetch cap) with
+    | .error f => .error f
+    | .ok (m', o) => .ok (l.set x m', o)
+
+structure LInv (l : LMon) : Prop where
+  a : MInv l.a
+  b : MInv l.b
+  wa : WInv l.a.e
+  wb : WInv l.b.e
+  qab : ∀ seg ∈ l.qab, Bytes seg
+  qba : ∀ seg ∈ l.qba, Bytes seg
+
+/-- the application hands byte strings to `send` -/
+def WfOp : Op → Prop
+  | .send _ m => Bytes m
+  | _ => True
+
+theorem LInv.get {l : LMon} (h : LInv l) (x : Side) : MInv (l.get x) ∧ WInv (l.get x).e := by
+  cases x
+  · exact ⟨h.a, h.wa⟩
+  · exact ⟨h.b, h.wb⟩
+
+theorem LInv.inq {l : LMon} (h : LInv l) (x : Side) : ∀ seg ∈ l.inq x, Bytes seg := by
+  cases x
+  · exact h.qba
+  · exact h.qab
+
+theorem LInv.set {l : LMon} (h : LInv l) (x : Side) {m : Mon} (hm : MInv m) (hw : WInv m.e) :
+    LInv (l.set x m) := by
+  cases x
+  · exact ⟨hm, h.b, hw, h.wb, h.qab, h.qba⟩
+  · exact ⟨h.a, hm, h.wa, hw, h.qab, h.qba⟩
+
+theorem LInv.setInq {l : LMon} (h : LInv l) (x : Side) {q : List (List Nat)} (hq : ∀ seg ∈ q, Bytes seg) :
+    LInv (l.setInq x q) := by
+  cases x
+  · exact ⟨h.a, h.b, h.wa, h.wb, h.qab, hq⟩
+  · exact ⟨h.a, h.b, h.wa, h.wb, hq, h.qba⟩
+
+
+theorem mon_step_winv {m : Mon} (hm : MInv m) (hw : WInv m.e) {op : EOp}
+    (hb : ∀ d now, op = .rx d now → Bytes d) (hs : ∀ d, op = .send d → Bytes d)
+    {m' : Mon} {o : Out} (hok : m.step op = .ok (m', o)) :
+    WInv m'.e ∧ (∀ seg, o = .tx seg → Bytes seg) := by
+  cases op with
+  | send d =>
+    simp only [Mon.step] at hok
+    cases h : m.e.send d with
+    | error f => rw [h] at hok; cases hok
+    | ok r =>
+      rw [h] at hok
+      obtain ⟨e, ok⟩ := r
+      have hh := Prod.mk.inj (Except.ok.inj hok)
+      rw [← hh.1, ← hh.2]
+      exact ⟨endSend_winv hw (hs d rfl) h, fun seg hseg => by cases hseg⟩
+  | poll now =>
+    simp only [Mon.step] at hok
+    cases h : m.e.processOutgoing now with
+    | error f => rw [h] at hok; cases hok
+    | ok r =>
+      rw [h] at hok
+      obtain ⟨e, seg⟩ := r
+      obtain ⟨hbs, hwe⟩ := endOutgoing_bytes hm.e hw h
+      have hh := Prod.mk.inj (Except.ok.inj hok)
+      rw [← hh.1, ← hh.2]
+      refine ⟨hwe, ?_⟩
+      intro sg hsg
+      split at hsg
+      · cases hsg; exact hbs
+      · cases hsg
+  | rx data now =>
+    simp only [Mon.step] at hok
+    cases h : m.e.processIncoming data now with
+    | error f => rw [h] at hok; cases hok
+    | ok e =>
+      rw [h] at hok
+      have hh := Prod.mk.inj (Except.ok.inj hok)
+      rw [← hh.1, ← hh.2]
+      exact ⟨endIncoming_winv hw (hb data now rfl) h, fun seg hseg => by cases hseg⟩
+  | fetch cap =>
+    simp only [Mon.step] at hok
+    cases h : m.e.recv cap with
+    | error f => rw [h] at hok; cases hok
+    | ok r =>
+      rw [h] at hok
+      obtain ⟨e, mo⟩ := r
+      have hwe := endRecv_winv hw h
+      cases mo with
+      | none =>
+        have hh := Prod.mk.inj (Except.ok.inj hok)
+        rw [← hh.1, ← hh.2]
+        exact ⟨hwe, fun seg hseg => by cases hseg⟩
+      | some bb =>
+        have hh := Prod.mk.inj (Except.ok.inj hok)
+        rw [← hh.1, ← hh.2]
+        exact ⟨hwe, fun seg hseg => by cases hseg⟩
+
+/-- **Link invariant**: every scheduler operation on two ends joined by two FIFO queues either
+fails cleanly (state unchanged) or leads to a state satisfying the invariant — never a panic — for
+every negotiated MTU and window, every interleaving, including sequence-number wrap. -/
+theorem link_step (l : LMon) (hl : LInv l) (op : Op) (hop : WfOp op) :
+    Clean (l.step op) (fun r => LInv r.1) := by
+  cases op with
+  | send x m =>
+    simp only [LMon.step]
+    obtain ⟨hm, hw⟩ := hl.get x
+    have c := mon_step (l.get x) hm (.send m) (fun d now h => by cases h)
+    cases h : (l.get x).step (.send m) with
+    | error f => rw [h] at c; exact c
+    | ok r =>
+      rw [h] at c
+      obtain ⟨m', o⟩ := r
+      simp only [Clean] at c ⊢
+      obtain ⟨hw', _⟩ := mon_step_winv hm hw (fun d now h => by cases h) (fun d h => by cases h; exact hop) h
+      exact hl.set x c hw'
+  | poll x =>
+    simp only [LMon.step]
+    obtain ⟨hm, hw⟩ := hl.get x
+    have c := mon_step (l.get x) hm (.poll l.now) (fun d now h => by cases h)
+    cases h : (l.get x).step (.poll l.now) with
+    | error f => rw [h] at c; exact c
+    | ok r =>
+      rw [h] at c
+      obtain ⟨m', o⟩ := r
+      simp only [Clean] at c
+      obtain ⟨hw', hseg⟩ := mon_step_winv hm hw (fun d now h => by cases h) (fun d h => by cases h) h
+      have hl' := hl.set x c hw'
+      cases o with
+      | tx seg =>
+        simp only [Clean]
+        apply hl'.setInq
+        intro sg hsg
+        rcases List.mem_append.mp hsg with h1 | h1
+        · exact hl'.inq _ sg h1
+        · have : sg = seg := by simpa using h1
+          rw [this]; exact hseg seg rfl
+      | none => simp only [Clean]; exact hl'
+      | queued ok => simp only [Clean]; exact hl'
+      | delivered => simp only [Clean]; exact hl'
+      | msg mm => simp only [Clean]; exact hl'
+  | deliver x =>
+    simp only [LMon.step]
+    cases hq : l.inq x with
+    | nil => simp only [Clean]; exact hl
+    | cons seg rest =>
+      simp only
+      obtain ⟨hm, hw⟩ := hl.get x
+      have hqb := hl.inq x
+      rw [hq] at hqb
+      have hsb : Bytes seg := hqb seg (by simp)
+      have c := mon_step (l.get x) hm (.rx seg l.now) (fun d now h => by cases h; exact hsb)
+      cases h : (l.get x).step (.rx seg l.now) with
+      | error f => rw [h] at c; exact c
+      | ok r =>
+        rw [h] at c
+        obtain ⟨m', o⟩ := r
+        simp only [Clean] at c ⊢
+        obtain ⟨hw', _⟩ := mon_step_winv hm hw (fun d now h => by cases h; exact hsb) (fun d h => by cases h) h
+        exact (hl.set x c hw').setInq x (fun sg hsg => hqb sg (by simp [hsg]))
+  | tick n =>
+    simp only [LMon.step, Clean]
+    exact ⟨hl.a, hl.b, hl.wa, hl.wb, hl.qab, hl.qba⟩
+  | fetch x cap =>
+    simp only [LMon.step]
+    obtain ⟨hm, hw⟩ := hl.get x
+    have c := mon_step (l.get x) hm (.fetch cap) (fun d now h => by cases h)
+    cases h : (l.get x).step (.fetch cap) with
+    | error f => rw [h] at c; exact c
+    | ok r =>
+      rw [h] at c
+      obtain ⟨m', o⟩ := r
+      simp only [Clean] at c ⊢
+      obtain ⟨hw', _⟩ := mon_step_winv hm hw (fun d now h => by cases h) (fun d h => by cases h) h
+      exact hl.set x c hw'
+
+
+/-- forgetting the ghosts commutes with a step -/
+def eraseRes : Except Fail (LMon × Out) → Except Fail (Link × Out)
+  | .ok (l, o) => .ok (l.erase, o)
+  | .error f => .error f
+
+theorem erase_get (l : LMon) (x : Side) : l.erase.get x = (l.get x).e := by cases x <;> rfl
+theorem erase_set (l : LMon) (x : Side) (m : Mon) : (l.set x m).erase = l.erase.set x m.e := by cases x <;> rfl
+theorem erase_inq (l : LMon) (x : Side) : l.erase.inq x = l.inq x := by cases x <;> rfl
+theorem erase_setInq (l : LMon) (x : Side) (q : List (List Nat)) :
+    (l.setInq x q).erase = l.erase.setInq x q := by cases x <;> rfl
+theorem erase_now (l : LMon) : l.erase.now = l.now := rfl
+
+/-- **The monitored link is the model's link**: `LMon.step` is `Link.step` plus ghost bookkeeping. -/
+theorem step_erase (l : LMon) (op : Op) : eraseRes (l.step op) = l.erase.step op := by
+  cases op with
+  | send x m =>
+    simp only [LMon.step, Link.step, Mon.step, erase_get]
+    cases h : (l.get x).e.send m with
+    | error f => rfl
+    | ok r => obtain ⟨e, ok⟩ := r; simp only [eraseRes, erase_set]
+  | poll x =>
+    simp only [LMon.step, Link.step, Mon.step, erase_get, erase_now]
+    cases h : (l.get x).e.processOutgoing l.now with
+    | error f => rfl
+    | ok r =>
+      obtain ⟨e, seg⟩ := r
+      simp only
+      by_cases hs : seg.length > 0
+      · simp only [hs, if_true, eraseRes, erase_setInq, erase_set]
+        rw [← erase_inq, erase_set]
+      · simp only [hs, if_false, eraseRes, erase_set]
+  | deliver x =>
+    simp only [LMon.step, Link.step, erase_inq]
+    cases hq : l.inq x with
+    | nil => rfl
+    | cons seg rest =>
+      simp only [Mon.step, erase_get, erase_now]
+      cases h : (l.get x).e.processIncoming seg l.now with
+      | error f => rfl
+      | ok e => simp only [eraseRes, erase_setInq, erase_set]
+  | tick n => rfl
+  | fetch x cap =>
+    simp only [LMon.step, Link.step, Mon.step, erase_get]
+    cases h : (l.get x).e.recv cap with
+    | error f => rfl
+    | ok r =>
+      obtain ⟨e, mo⟩ := r
+      cases mo with
+      | none => simp only [eraseRes, erase_set]
+      | some b => simp only [eraseRes, erase_set]
+
 end Btp
